@@ -448,22 +448,56 @@ func runForged(run *ev.Run, j int) {
 				}
 			}
 		}
-		// revocation by a foreign (authenticated) client: garbage must answer 200, and nothing may happen to the victims
+		// revocation. A string that resolves to no stored token (it does not decrypt to a stored token id, is no stored
+		// refresh token, and - being forged - verifies under no published key) is an unknown token: revocation by its
+		// would-be owner and by a foreign client must answer 200 and change nothing. A string that does resolve (a flip
+		// in the subject half keeps the victim's id) is only sent by the foreign client, which may be refused (401) but
+		// must not change anything either.
 		if !equivalent {
-			hint := []string{"", "access_token", "refresh_token", "id_token"}[n%4]
-			resp = f.revoke(fg.Str, hint, f.basic("web2"))
-			run.Eval()
-			if !f.panicked(resp, caseIdx, "revocation of forged token ("+fg.Op+")", func() any { return witness(fg, nil) }) {
-				run.Count("forged_revoke", fmt.Sprintf("%s:%d", fg.Class, resp.Status))
-				if fg.Class == "garbage" {
-					if resp.Status != 200 {
-						run.Violation("C08:"+f.rn+":revoke:garbage-not-200", caseIdx, "revocation of a garbage token by an authenticated client did not answer 200", witness(fg, map[string]any{"response": resp.Brief(), "token_type_hint": hint}))
-					} else {
-						run.Observed("forged-garbage-revoke-200:" + f.rn)
+			resolves := false
+			if id, _, ok := f.w.OpaqueTokenID(fg.Str); ok {
+				_, resolves = f.w.Store.TokenRecord(id)
+			}
+			if _, ok := f.w.Store.TokenRecord(fg.Str); ok {
+				resolves = true // the bare stored id
+			}
+			if _, ok := f.w.Store.RefreshRecord(fg.Str); ok {
+				resolves = true
+			}
+			callers := []string{"web2"}
+			if !resolves {
+				callers = []string{"web2", owner}
+			}
+			for ci, caller := range callers {
+				hint := []string{"", "access_token", "refresh_token", "id_token"}[(n+ci)%4]
+				resp = f.revoke(fg.Str, hint, f.basic(caller))
+				run.Eval()
+				if f.panicked(resp, caseIdx, "revocation of forged token ("+fg.Op+")", func() any { return witness(fg, nil) }) {
+					continue
+				}
+				role := "foreign"
+				if caller == owner {
+					role = "owner"
+				}
+				run.Count("forged_revoke", fmt.Sprintf("%s:%s:resolves=%v:%d", fg.Class, role, resolves, resp.Status))
+				if !resolves {
+					switch {
+					case resp.Status == 200:
+						run.Observed("forged-unknown-revoke-200:" + role + ":" + f.rn)
+						if fg.Class == "garbage" {
+							run.Observed("forged-garbage-revoke-200:" + f.rn)
+						}
+						if strings.HasPrefix(fg.Op, "jwt-foreign-key") || strings.HasPrefix(fg.Op, "idtoken-foreign-key") {
+							run.Observed("forged-unknown-key-jwt-revoke-200:" + f.rn)
+						}
+					case fg.Class == "garbage":
+						run.Violation("C08:"+f.rn+":revoke:garbage-not-200", caseIdx, "revocation of a garbage token by an authenticated client did not answer 200", witness(fg, map[string]any{"response": resp.Brief(), "token_type_hint": hint, "caller": caller}))
+					default:
+						run.Violation("C08:"+f.rn+":revoke:unknown-not-200", caseIdx, "revocation of an unknown token ("+fg.Op+": resolves to no stored token, verifies under no published key) by an authenticated client did not answer 200", witness(fg, map[string]any{"response": resp.Brief(), "token_type_hint": hint, "caller": caller}))
 					}
 				}
 				if dead := f.victimsLive(); dead != "" {
-					fire("revoke", "revocation of a forged token string by a foreign client killed "+dead, resp)
+					fire("revoke", "revocation of a forged token string by "+role+" client "+caller+" killed "+dead, resp)
 					return
 				}
 			}
@@ -479,5 +513,49 @@ func runForged(run *ev.Run, j int) {
 			run.Violation("C08:forged:any:victim-killed", caseIdx, "after the forged strings a genuine live token is no longer honoured: "+resp.Brief(), map[string]any{"router": f.rn, "preparation": f.prep})
 		}
 	}
+	f.rotatedKey(j)
 	run.CountN("forged_cases", f.rn, 1)
+}
+
+// rotatedKey: the provider's signing key is rotated and the old key leaves the published set. The JWT access token
+// issued before (this provider's issuer, genuinely issued, but its kid / alg now matches no published key) has become
+// an unknown token for the provider: revoking it - by a foreign client, then by its owner - must still answer 200.
+func (f *forgeCase) rotatedKey(j int) {
+	old := f.w.Store.SigningKeyOf()
+	var nk *keys.Key
+	variant := ""
+	switch (j / 2) % 3 {
+	case 0:
+		nk, variant = keys.Get("op-sig-2", jose.RS256), "new RS256 key, new kid"
+	case 1:
+		nk, variant = keys.Get("op-sig-es", jose.ES256), "new ES256 key, new kid"
+	default:
+		nk, variant = keys.Get("op-sig-es", jose.ES256).With(old.Kid, jose.ES256, "sig"), "new ES256 key under the old kid"
+	}
+	f.w.Store.SetSigningKey(nk, nk)
+	prep := append(append([]opLog{}, f.prep...), opLog{"rotate", "signing key " + old.Kid + "/" + string(old.Alg) + " replaced and removed from the published set: " + variant, ""})
+	for _, caller := range []string{"web2", "webj"} {
+		hint := pick(f.r, "", "access_token", "refresh_token")
+		resp := f.revoke(f.v2.Access, hint, f.basic(caller))
+		f.run.Eval()
+		wit := func() any {
+			return map[string]any{"router": f.rn, "preparation": prep, "token": f.v2.Access, "caller": caller, "token_type_hint": hint, "response": resp.Brief()}
+		}
+		if f.panicked(resp, f.caseIdx, "revocation of a JWT whose key was rotated out", wit) {
+			continue
+		}
+		f.run.Count("forged_revoke", fmt.Sprintf("rotated-out-key:%s:%d", caller, resp.Status))
+		f.run.Distinct(fmt.Sprintf("%s|forged|rotated-out-key|%s|%s", f.rn, variant, caller))
+		if resp.Status != 200 {
+			f.run.Violation("C08:"+f.rn+":revoke:rotated-key-not-200", f.caseIdx, "revocation of a JWT access token whose signing key left the published key set ("+variant+") did not answer 200: "+resp.Brief(), wit())
+			continue
+		}
+		f.run.Observed("forged-rotated-key-revoke-200:" + f.rn)
+	}
+	// the opaque victim does not depend on the signing key: still honoured, and userinfo with the old JWT is counted
+	if resp := f.userinfo("header-get", f.v1.Access); resp.Status != 200 && resp.Panic == nil {
+		f.run.Violation("C08:"+f.rn+":userinfo:refused-live", f.caseIdx, "after a signing-key rotation a live opaque access token is refused: "+resp.Brief(), map[string]any{"router": f.rn, "preparation": prep})
+	}
+	resp := f.userinfo("header-get", f.v2.Access)
+	f.run.Count("forged_userinfo", fmt.Sprintf("jwt-of-rotated-out-key:%d", resp.Status))
 }
